@@ -183,6 +183,9 @@ pub enum Op {
         #[serde(default)]
         from_invoke: bool,
     },
+    /// Wait until the virtual clock (since the start of the run) is at `offset_us` past a multiple
+    /// of `period_us`: steps aligned to a periodic activity of the server (push rounds).
+    SleepUntilMultiple { period_us: u64, offset_us: u64 },
     /// Half-close: end the request stream, keep reading responses.
     StreamCloseReq { slot: u32 },
     /// Drop both directions (client went away).
